@@ -1200,6 +1200,15 @@ func ruleR094(c *Ctx) {
 				var bad ast.Node
 				what := ""
 				for _, b := range bodies {
+					// keys that are collected and sorted before anything is delivered come in a fixed order
+					sorts := containsNodeDeep(b, func(y ast.Node) bool {
+						sc, ok := y.(*ast.CallExpr)
+						if !ok {
+							return false
+						}
+						cal := Callee(info, sc)
+						return cal != nil && cal.Pkg() != nil && (cal.Pkg().Path() == "sort" || cal.Pkg().Path() == "slices" && strings.HasPrefix(cal.Name(), "Sort"))
+					})
 					ast.Inspect(b, func(y ast.Node) bool {
 						rs, ok := y.(*ast.RangeStmt)
 						if !ok || bad != nil {
@@ -1209,13 +1218,35 @@ func ruleR094(c *Ctx) {
 						if t == nil {
 							return true
 						}
+						isMapRange, desc := false, ""
 						if _, isMap := t.Underlying().(*types.Map); isMap {
-							bad, what = rs, "the Go map "+nodeStr(c.Fset, rs.X)
+							isMapRange, desc = true, "the Go map "+nodeStr(c.Fset, rs.X)
 						}
 						if rc, ok := ast.Unparen(rs.X).(*ast.CallExpr); ok {
 							if cal := Callee(info, rc); cal != nil && cal.Pkg() != nil && cal.Pkg().Path() == "maps" {
-								bad, what = rs, "maps."+cal.Name()+" of a Go map"
+								isMapRange, desc = true, "maps."+cal.Name()+" of a Go map"
 							}
+						}
+						if !isMapRange {
+							return true
+						}
+						// does the loop deliver elements itself (a call of a function typed value: the consumer)?
+						delivers := containsNodeDeep(rs.Body, func(z ast.Node) bool {
+							cc, ok := z.(*ast.CallExpr)
+							if !ok {
+								return false
+							}
+							if Callee(info, cc) != nil {
+								return false
+							}
+							if tv, isT := info.Types[cc.Fun]; isT && tv.IsType() {
+								return false
+							}
+							_, isSig := info.TypeOf(cc.Fun).Underlying().(*types.Signature)
+							return isSig
+						})
+						if delivers || !sorts {
+							bad, what = rs, desc
 						}
 						return true
 					})
@@ -1376,12 +1407,15 @@ func ruleR095(c *Ctx) {
 				}
 				_, isLit := r.(*ast.CompositeLit)
 				if call, ok := r.(*ast.CallExpr); ok && !isLit {
-					// a private constructor that returns a new literal: l := newLazyList(size)
+					// a constructor: a function that returns a list it has created itself (l := newLazyList(size),
+					// l := NewListFromIterable(li))
 					if cl, _ := c.ctorLiteral(info, call); cl != nil {
+						isLit = true
+					} else if cal := Callee(info, call); cal != nil && returnsFreshList(c, la, cal, 0) {
 						isLit = true
 					}
 				}
-				if isLit && countAssignments(info, s.fn, info.ObjectOf(id)) == 1 {
+				if isLit && countAssignments(info, s.fn, info.ObjectOf(id)) == 1 && !c.escapesBefore(info, s.fn, info.ObjectOf(id), s.sel) {
 					c.OK(key, s.stmt.Pos(), "store into a list this function has just created")
 					continue
 				}
@@ -1432,4 +1466,52 @@ func ruleR095(c *Ctx) {
 		}
 		c.Violation(key, s.stmt.Pos(), "a store into the field %s of an existing list: a *List is shared by pointer between all holders of the value, between evaluations and between goroutines, and its only mutable part is the cache of its items. State that one observer leaves in the list (a flag, a cursor, a counter) changes what the next or a concurrent observer sees of the same, unchanged value", s.field.Name())
 	}
+}
+
+// returnsFreshList: every return of the function hands back a list that the
+// function created itself: a literal, a local with one definition that is a
+// literal or the result of such a function, or the result of such a function.
+func returnsFreshList(c *Ctx, la *listAnchors, fn *types.Func, depth int) bool {
+	if fn == nil || fn.Pkg() != la.vp.Types || depth > 3 {
+		return false
+	}
+	fd := findFuncDecl(la.vp, fn)
+	if fd == nil || fd.Body == nil {
+		return false
+	}
+	info := la.vp.TypesInfo
+	var fresh func(e ast.Expr, d int) bool
+	fresh = func(e ast.Expr, d int) bool {
+		e = ast.Unparen(e)
+		if u, ok := e.(*ast.UnaryExpr); ok && u.Op == token.AND {
+			e = ast.Unparen(u.X)
+		}
+		switch t := e.(type) {
+		case *ast.CompositeLit:
+			nm := namedOf(info.TypeOf(t))
+			return nm != nil && nm.Obj() == la.listType
+		case *ast.CallExpr:
+			return returnsFreshList(c, la, Callee(info, t), depth+1)
+		case *ast.Ident:
+			if d > 2 {
+				return false
+			}
+			obj := info.ObjectOf(t)
+			if as, i := definingAssign(info, fd, obj); as != nil && len(as.Rhs) == len(as.Lhs) && countAssignments(info, fd, obj) == 1 {
+				return fresh(as.Rhs[i], d+1)
+			}
+		}
+		return false
+	}
+	n, all := 0, true
+	inspectNoLit(fd.Body, func(x ast.Node) bool {
+		if r, ok := x.(*ast.ReturnStmt); ok {
+			n++
+			if len(r.Results) == 0 || !fresh(r.Results[0], 0) {
+				all = false
+			}
+		}
+		return true
+	})
+	return n > 0 && all
 }
